@@ -4,7 +4,7 @@ from harness.props._common import run_eval, replay_eval
 from harness import monitors
 
 PROPS_FILE = "P_C04"
-COQ_TARGETS = ["CaseLib", "CaseLibMcx", "LdmcsuModel", "QdmcuModel"]
+COQ_TARGETS = ["CaseLib", "CaseLibMcx", "LdmcsuModel", "QdmcuModel", "LdmcuInst"]
 RULE = ("contract monitors: every call of Qdmcu.custom_sqrtm (V unitary, V V = U: premises of C04_barenco_step) and of "
         "Ldmcsu._compute_gate_a (A unitary, (A^dagger X A X)^2 = U: conclusion of C04_gate_a_fourth_root in matrix form) made while "
         "building gates for boundary and random SU(2)/U(2) matrices and 2..6/9 controls is checked numerically at 1e-9; gate-list "
@@ -13,12 +13,14 @@ RULE = ("contract monitors: every call of Qdmcu.custom_sqrtm (V unitary, V V = U
         "(A^dagger A = I, (A^dagger X A X)^2 = U or H U H) are checked on the A the code computed; the flattened definition of "
         "Qdmcu(U, n, ctrl_state), n = 1..9/16, U(2) boundary and Haar matrices, is compared inside Coq with QdmcuModel.qdmcu (controlled V / "
         "V^dagger gates named by the custom_sqrtm iterate their base matrix equals, each checked to be the ideal controlled matrix; the "
-        "premises of C04_qdmcu - V_(l+1)^2 = V_l, unitarity - are checked on the iterates); direct "
+        "premises of C04_qdmcu - V_(l+1)^2 = V_l, unitarity - are checked on the iterates); the flattened definition of Ldmcu(U, T, ctrl_state), "
+        "T = 1..9/14, is compared inside Coq with LdmcuInst.ldmcu (crx angles read exactly as +-pi/2^e, controlled roots named by the integer "
+        "power of the deepest root W they equal; premises W Wi = 1, W^(2^(T-1)) = U checked numerically); direct "
         "evaluation (harness/props/c04_eval.py): operator / random-state evolution vs the ideal controlled-U for every gate class, "
         "control pattern and boundary matrix. distinct = distinct (class, matrix, controls, pattern); non-trivial = k >= 2")
 ASSUMPTIONS = ["Qiskit's UnitaryGate(...).control(...) is the ideal controlled gate (validated numerically in the direct evaluation)",
                "the 2x2 identities that are premises of C04_qdmcu / C04_ldmcsu_* (square roots, unitarity) are checked numerically on the matrices the code computes",
-               "Ldmcu's ladder, Ldmcsu's eigenbasis branch (complex diagonals), LdMcSpecialUnitary's ABC decomposition, MCU's truncated ladder and "
+               "Ldmcsu's eigenbasis branch (complex diagonals), LdMcSpecialUnitary's ABC decomposition, MCU's truncated ladder and "
                "MultiTargetMCSU2 are evaluated, not proved"]
 TRUSTED = ["harness/monitors.py"]
 X = np.array([[0, 1], [1, 0]], dtype=complex)
@@ -263,10 +265,105 @@ def qdmcu_correspondence(ctx):
     run_bool_cases(ctx, "c04_qdmcu", QHEADER, lines, cases, on_fail, shard=12)
 
 
+DHEADER = ("From Coq Require Import List Bool Arith ZArith.\nFrom QV Require Import McxModel CaseLib CaseLibMcx LdmcuCore LdmcuModel LdmcuInst.\nImport ListNotations.\n"
+           "Definition lg_eqb (g h : lg) : bool := Nat.eqb (gc g) (gc h) && Nat.eqb (gt g) (gt h) && Z.eqb (gz g) (gz h).\n"
+           "Definition fg_eqb (g h : fgate) : bool := match g, h with inl a, inl b => sgate_eqb a b | inr a, inr b => lg_eqb a b | _, _ => false end.\n"
+           "(* exponents naming numerically equal powers of W on the target are identified: table computed by the harness *)\n"
+           "Definition canonz (tb : list (Z * Z)) (z : Z) : Z := match find (fun e => Z.eqb (fst e) z) tb with Some e => snd e | None => z end.\n"
+           "Definition cfg (T : nat) tb (g : fgate) : fgate := match g with inr a => if Nat.eqb (gt a) T then inr (LG (gc a) (gt a) (canonz tb (gz a))) else g | _ => g end.\n")
+
+
+def ldmcu_correspondence(ctx):
+    """Ldmcu(U, T, ctrl_state): the flattened definition (crx angles read exactly as +-pi/2^e, controlled roots of U kept whole and
+    named by the integer power of the deepest root W = U^(1/2^(T-1)) they equal) is compared inside Coq with LdmcuInst.ldmcu T pattern;
+    the premises of C04_ldmcu (W Wi = 1, W^(2^(T-1)) = U) are checked numerically."""
+    from qiskit.circuit import ControlledGate
+    from qiskit.quantum_info import Operator
+    from qclib.gates.ldmcu import Ldmcu
+    from harness.flatten import flatten, coq_list, coq_bool, ctrl_state_of
+    from harness.coqcases import run_bool_cases
+    from harness.props.c05 import pat_of, sgates_to_coq
+    from scipy.stats import unitary_group
+    tmax = 9 if ctx.quick else 14
+
+    def stop(op):
+        if isinstance(op, ControlledGate) and op.num_ctrl_qubits == 1 and op.num_qubits == 2 and op.name not in ("cx", "crx"):
+            return "cv"
+        return None
+
+    def u2_family():
+        yield from su2_family(ctx.rng)
+        yield "X", X.copy()
+        yield "Z", np.diag([1.0 + 0j, -1.0])
+        yield "phase", np.diag([1.0 + 0j, np.exp(0.7j)])
+        yield "tiny_phase", np.diag([1.0 + 0j, np.exp(1e-9j)])
+        yield "global_phase", np.exp(0.3j) * np.eye(2, dtype=complex)
+        for _ in range(2):
+            yield "haar_u2", unitary_group.rvs(2, random_state=int(ctx.rng.integers(1 << 30)))
+    cases, lines = [], []
+    for T in range(1, tmax + 1):
+        for fam, U in u2_family():
+            if T > 6 and fam not in ("haar_u2", "X", "identity", "iX", "haar_su2", "tiny_phase"):
+                continue
+            cs = None if ctx.rng.random() < 0.3 else "".join("1" if ctx.rng.random() < 0.5 else "0" for _ in range(T))
+            g = Ldmcu(U, T, ctrl_state=cs)
+            fl, _ = flatten(g.definition, stop=stop)
+            W = np.asarray(Operator(Ldmcu._gate_u(U, 2 ** (T - 1), 1)).data)[np.ix_([1, 3], [1, 3])]   # controlled circuit: block control = 1
+            Wi = np.linalg.inv(W)
+            cands = [sg * 2 ** j for j in range(T) for sg in (1, -1)]
+            mat = {z: np.linalg.matrix_power(W if z > 0 else Wi, abs(z)) for z in cands}
+            rep = {}
+            for i, a in enumerate(cands):
+                rep[a] = next(b for b in cands[:i + 1] if np.abs(mat[a] - mat[b]).max() < 1e-13)
+            table = coq_list([f"(({a})%Z, ({rep[a]})%Z)" for a in cands])
+            items, bad = [], None
+            for name, qs, op in fl:
+                if name == "cv":
+                    B = np.asarray(Operator(op.base_gate).data)
+                    best = min(cands, key=lambda z: np.abs(B - mat[z]).max())
+                    ideal = np.eye(4, dtype=complex)
+                    ideal[np.ix_([1, 3], [1, 3])] = B                 # little-endian: index = 2 * target + control
+                    ctx.monitor("ldmcu_controlled_root_is_ideal")
+                    if ctrl_state_of(op) != (1,) or np.abs(np.asarray(Operator(op).data) - ideal).max() > 1e-9:
+                        bad = "a controlled root gate is not the ideal positively controlled matrix"
+                    if np.abs(B - mat[best]).max() > 1e-9:
+                        items.append(f"inr (LG {qs[0]} {qs[1]} 77777%Z)")
+                    else:
+                        items.append(f"inr (LG {qs[0]} {qs[1]} ({rep[best]})%Z)")
+                elif name == "crx":
+                    th = float(op.params[0])
+                    e = int(round(np.log2(np.pi / abs(th)))) if th != 0 else -1
+                    t = qs[1]
+                    if e < 0 or np.pi / 2 ** e != abs(th) or t - 1 - e < 0:
+                        items.append(f"inr (LG {qs[0]} {qs[1]} 88888%Z)")
+                    else:
+                        z = (1 if th > 0 else -1) * 2 ** (t - 1 - e)
+                        items.append(f"inr (LG {qs[0]} {qs[1]} ({z})%Z)")
+                else:
+                    items.append("inl (" + sgates_to_coq([(name, qs, op)])[1:-1] + ")")
+            case = {"class": "Ldmcu", "k": T, "ctrl_state": cs, "mat_family": fam, "matrix": [[str(z) for z in row] for row in U]}
+            cases.append(case)
+            ctx.max_struct_qubits = max(ctx.max_struct_qubits, T + 1)
+            ctx.count("corr:ldmcu", key=("ldmcu", T, cs, fam, U.tobytes()), nontrivial=T >= 2,
+                      sample={"class": "Ldmcu", "k": T, "ctrl_state": cs, "mat_family": fam, "gates": len(items)} if T == 4 else None)
+            if bad:
+                ctx.mismatch("C04 contract: " + bad, case)
+            ctx.monitor("ldmcu_theorem_premises")
+            if np.abs(W @ Wi - np.eye(2)).max() > 1e-9 or np.abs(np.linalg.matrix_power(W, 2 ** (T - 1)) - U).max() > 1e-9:
+                ctx.mismatch("C04 contract: the deepest root W = U^(1/2^(T-1)) of Ldmcu._gate_u does not satisfy W^(2^(T-1)) = U (premise of C04_ldmcu)", case)
+            model = f"(map (cfg {T} {table}) (ldmcu {T} {coq_list([coq_bool(b) for b in pat_of(cs, T)])}))"
+            lines.append(f"(list_eqb fg_eqb {model} {coq_list(items)})")
+
+    def on_fail(c):
+        ctx.mismatch("C04 correspondence: flattened Ldmcu definition differs from the Coq model LdmcuInst.ldmcu", c)
+    run_bool_cases(ctx, "c04_ldmcu", DHEADER, lines, cases, on_fail, shard=12)
+
+
 def run(ctx):
     monitor_run(ctx)
     ldmcsu_correspondence(ctx)
     qdmcu_correspondence(ctx)
+    ldmcu_correspondence(ctx)
     run_eval(ctx, "C04")
 
 
@@ -279,7 +376,7 @@ def replay(ctx, case):
 
 
 MANIFEST = dict(
-    text="Proof (PARTIAL): Qdmcu end to end for every number of controls, every control pattern and every 2x2 matrix family with V_(l+1)^2 = V_l, V_l V_l^dagger = 1: the gate list of QdmcuModel.qdmcu (controlled V, action-only LinearMcx on the lower controls with the target as dirty ancilla, controlled V^dagger, the inverse LinearMcx, recursion on the remaining controls with the next square root) applies U to the target exactly on the basis states matching the pattern and the identity elsewhere (C04_qdmcu; it rests on the exact LinearMcx for every k >= 1 and every pattern, C04_linear_mcx_exact, on the factorisation exact = controls-only circuit after action-only, and on a polarity version of Barenco Lemma 7.5); the spectral square root squares to the matrix (C04_spectral_sqrt); the recursion step of Qdmcu (Barenco Lemma 7.5) for any placement and any 'rest' predicate (C04_barenco_step), and the fourth-root identity of Ldmcsu._compute_gate_a over the reals (C04_gate_a_fourth_root); Ldmcsu end to end for every k >= 2, every control pattern and every SU(2) matrix with a real main or secondary diagonal: the gate list of LdmcsuModel.ldmcsu (two dirty V-chains, their inverses, A / A^dagger, optional H conjugation) applies U to the target exactly on the basis states matching the pattern and the identity elsewhere (C04_ldmcsu_plain, C04_ldmcsu_hconj, built on C05's placed V-chain theorems). Tie: the flattened Ldmcsu and Qdmcu definitions are compared with the models' gate lists inside Coq; every custom_sqrtm and _compute_gate_a call made while building gates for boundary and random SU(2) matrices is checked against the theorem's premises/conclusion in matrix form. All gate classes (Ldmcu, Ldmcsu, LdMcSpecialUnitary, Qdmcu, Mcg, MCU, MultiTargetMCSU2), patterns and boundary matrices are evaluated against the ideal controlled operator.",
-    note='Modelled, not verified: Qiskit .control(), UnitaryGate; scipy schur inside custom_sqrtm (its output is checked, not modelled); Ldmcu ladder, Ldmcsu eigenbasis branch, ABC decomposition, MCU bound, multi-target variant are evaluated only.',
-    technique='Coq proof (operator algebra on monomial/permuted states; real sqrt algebra) + runtime contract monitors + operator / random-state evaluation',
+    text="Proof (PARTIAL): Ldmcu end to end for every T >= 1 controls, every control pattern and every invertible W (C04_ldmcu): the gate list in the order the code emits it - four sweeps of controlled RX(+-pi/2^e) and controlled roots of U over the pairs (control, target) sorted stably by control + target - applies W^(2^(T-1)) = U to the target exactly on the matching basis states and restores every control with its phase; proof = trace equivalence of the sorted sweeps with their grouped form (Resort.resort), merging of the gates of one target in a one-parameter group, the cascade 'flip qubit j iff all lower qubits are 1' by induction (LdmcuCore.Sl_sem, Sl'_sem) and the weight identity C04_ldmcu_weights; Qdmcu end to end for every number of controls, every control pattern and every 2x2 matrix family with V_(l+1)^2 = V_l, V_l V_l^dagger = 1: the gate list of QdmcuModel.qdmcu (controlled V, action-only LinearMcx on the lower controls with the target as dirty ancilla, controlled V^dagger, the inverse LinearMcx, recursion on the remaining controls with the next square root) applies U to the target exactly on the basis states matching the pattern and the identity elsewhere (C04_qdmcu; it rests on the exact LinearMcx for every k >= 1 and every pattern, C04_linear_mcx_exact, on the factorisation exact = controls-only circuit after action-only, and on a polarity version of Barenco Lemma 7.5); the spectral square root squares to the matrix (C04_spectral_sqrt); the recursion step of Qdmcu (Barenco Lemma 7.5) for any placement and any 'rest' predicate (C04_barenco_step), and the fourth-root identity of Ldmcsu._compute_gate_a over the reals (C04_gate_a_fourth_root); Ldmcsu end to end for every k >= 2, every control pattern and every SU(2) matrix with a real main or secondary diagonal: the gate list of LdmcsuModel.ldmcsu (two dirty V-chains, their inverses, A / A^dagger, optional H conjugation) applies U to the target exactly on the basis states matching the pattern and the identity elsewhere (C04_ldmcsu_plain, C04_ldmcsu_hconj, built on C05's placed V-chain theorems). Tie: the flattened Ldmcu, Ldmcsu and Qdmcu definitions are compared with the models' gate lists inside Coq; every custom_sqrtm and _compute_gate_a call made while building gates for boundary and random SU(2) matrices is checked against the theorem's premises/conclusion in matrix form. All gate classes (Ldmcu, Ldmcsu, LdMcSpecialUnitary, Qdmcu, Mcg, MCU, MultiTargetMCSU2), patterns and boundary matrices are evaluated against the ideal controlled operator.",
+    note='Modelled, not verified: Qiskit .control(), UnitaryGate; scipy schur inside custom_sqrtm (its output is checked, not modelled) and inside Ldmcu._gate_u (its roots are checked to be integer powers of the deepest root); Ldmcsu eigenbasis branch, ABC decomposition, MCU bound, multi-target variant are evaluated only.',
+    technique='Coq proof (operator algebra on monomial/permuted states; trace equivalence of commuting gate orders; one-parameter groups; real sqrt algebra) + runtime contract monitors + operator / random-state evaluation',
     design_ref='DESIGN.md section 4, C04')
